@@ -1145,6 +1145,29 @@ fn native_spec() {
         if !h.contains("Usage:") || !h.contains("zzabout") || h.contains("Options:") || h.contains("Commands:") {
             println!("SPEC-REPLAY MISMATCH target=auto_help_template case=bare command: {:?}", h);
         }
+    } else if target == "range_sugar" {
+        // C04: value_parser(<range>) accepts exactly the range's own members, for each kind of range
+        let parse = |vp: crate::builder::ValueParser, v: &str| -> Option<i64> {
+            Command::new("p").arg(Arg::new("n").long("n").allow_negative_numbers(true).value_parser(vp).action(ArgAction::Set))
+                .try_get_matches_from(["p", "--n", v]).ok().and_then(|m| m.get_one::<i64>("n").copied())
+        };
+        let cases: Vec<(&str, fn() -> crate::builder::ValueParser, i64, i64)> = vec![
+            ("10..20", || (10..20).into(), 10, 19),
+            ("10..=20", || (10..=20).into(), 10, 20),
+            ("10..", || (10..).into(), 10, i64::MAX),
+            ("..20", || (..20).into(), i64::MIN, 19),
+            ("..=20", || (..=20).into(), i64::MIN, 20),
+            ("..", || (..).into(), i64::MIN, i64::MAX),
+        ];
+        for (what, mk, lo, hi) in cases {
+            for v in [lo, hi, lo.saturating_sub(1), hi.saturating_add(1), 15] {
+                let inside = v >= lo && v <= hi;
+                let got = parse(mk(), &v.to_string());
+                if got.is_some() != inside || (inside && got != Some(v)) {
+                    println!("SPEC-REPLAY MISMATCH target=range_sugar case=value_parser({what}) on {v}: {got:?}, expected {}", if inside { "accepted" } else { "rejected" });
+                }
+            }
+        }
     } else if target == "match_arg_error" {
         // C10: the error kind names a rule the input really breaks
         for acws in [false, true] {
